@@ -86,6 +86,7 @@ CONSTANTS
  Fams <- mc_Fams
  BufSize = 1024
  MaxChunks = %(maxchunks)d
+ Trail = %(trail)d
 CONSTRAINT Bound
 CONSTRAINT Emit
 INVARIANTS TypeOK IsSegmentation
@@ -101,8 +102,8 @@ def tla_pairs(ps):
 
 
 class Job:
-    def __init__(self, stream, fams, simulate=None, depth=None, tag="mc"):
-        self.stream, self.fams, self.simulate, self.depth, self.tag = stream, fams, simulate, depth, tag
+    def __init__(self, stream, fams, simulate=None, depth=None, tag="mc", trail=0):
+        self.stream, self.fams, self.simulate, self.depth, self.tag, self.trail = stream, fams, simulate, depth, tag, trail
 
 
 SIZES = [1, 2, 3, 7, 512, 1022, 1023, 1024, 1025, 1026, 2047, 2048, 2049, 4096, 4097]
@@ -122,14 +123,14 @@ def plan(ctx, geo):
     w = 8 if q else 11
     wins = ", ".join("Window(%d, %d)" % (a, a + w) for a in [rng.randint(0, n("mini") - 2 - w) for _ in range(1 if q else 3)])
     jobs.append(Job("mini", "BoundaryFams \\cup Merged(BndAlls \\cup Singles) \\cup UniformFams(%s, %s) \\cup Merged(UniformFams({1, 7}, {})) "
-                            "\\cup Empties({1, 3}) \\cup TextFams \\cup {KCuts(%d), %s}" % (
+                            "\\cup Empties({1, 3}) \\cup TextFams \\cup TextEmptyFams \\cup {KCuts(%d), %s}" % (
                                 tla_intset(small), tla_pairs(phases(small, 3)), 1 if q else 2, wins)))
     # min1025: CONNECT + PUBLISH = 1025 bytes: every single cut (and none)
     jobs.append(Job("min1025", "{KCuts(1)} \\cup UniformFams({1, 2, 512, 1023, 1024}, {})"))
     # the big streams
     sizes = [s for s in SIZES if not (q and s in (2, 3))]
     full = ("BoundaryFams \\cup Merged(BndAlls \\cup Singles) \\cup UniformFams(%s, %s) \\cup Merged(UniformFams({1024, 1025, 4097}, {})) "
-            "\\cup SpanFams(%s) \\cup Empties({1}) \\cup TextFams")
+            "\\cup SpanFams(%s) \\cup Empties({1}) \\cup TextFams \\cup TextEmptyFams")
     if q:   # the 16 510-message variant (a 1-byte and an empty message alternating) only in the thorough tier
         full = full.replace("Empties({1})", "{f \\in Empties({1}) : f.t = \"empties\" \\/ f.a > 1}")
     lite = "BndAlls \\cup Singles \\cup UniformFams({7, 1023, 1024, 1025, 2049}, {}) \\cup SpanFams({1025, 2049})"
@@ -139,6 +140,14 @@ def plan(ctx, geo):
         jobs.append(Job(s, lite if q else full % (tla_intset(sizes), tla_pairs(phases(sizes, 4)), tla_intset(LENS))))
         jobs.append(Job(s, "{Walk}", simulate="num=%d" % (15 if q else 800), depth=120, tag="walk"))
     return jobs
+
+
+def plan_trail(ctx, geo):
+    """bytes behind DISCONNECT in the same message (more than the 1024-byte reader holds): never processed, and never seen by any
+    other connection.  Run on a broker of its own, one scenario at a time, each followed by fresh connections (-victims)."""
+    rng = ctx.rng
+    return [Job("mini", "Merged(BndAlls \\cup Singles)", tag="trail", trail=rng.choice([1025, 3000])),
+            Job("big", "Merged(BndAlls) \\cup Merged(UniformFams({1024, 1025, 4097}, {}))", tag="trail", trail=rng.choice([1100, 2049, 5000]))]
 
 
 PACK_MAXPKT = 512
@@ -161,7 +170,7 @@ def job_body(geo, job):
 def job_cfg(geo, job):
     g = geo[job.stream]
     return SEG_CFG % {"name": tla_str(job.stream), "disc": "TRUE" if g["pk"][-1]["kind"] == "DISCONNECT" else "FALSE",
-                      "maxchunks": 200 if job.simulate else 100000}
+                      "maxchunks": 200 if job.simulate else 100000, "trail": job.trail}
 
 
 # ---------------------------------------------------------------------------------------------- run
@@ -187,7 +196,7 @@ class Driver:
         if not isinstance(js, str):
             js = json.dumps(js)
         o = json.loads(js)
-        key = (o["stream"], tuple(o["seg"]), o["text"])
+        key = (o["stream"], tuple(o["seg"]), o["text"], o.get("trail", 0))
         with self.lock:
             if key in self.seen:
                 self.dups += 1
